@@ -98,7 +98,7 @@ var c06Positions = []struct{ name, text string }{
 
 // statement-level faults (redeclaration, stray control) with their own positions
 var c06StmtFaults = []struct{ kind, stmt string }{
-	{"redeclare", "ধরি d = 2;"}, {"redeclare", "ধরি nn = 1, nn = 2;"}, {"redeclare", "ধরি arr;"},
+	{"redeclare", "ধরি d = 2;"}, {"redeclare", "ধরি un; ধরি un = 5;"}, {"redeclare", "ধরি un = nil; ধরি un;"}, {"redeclare", "ধরি un; un = nil; ধরি un = 1;"}, {"redeclare", "ধরি un = 0; ধরি un;"}, {"redeclare", "ধরি un = \"\"; ধরি un = 2;"}, {"redeclare", "ধরি un = মিথ্যা, un = 3;"}, {"redeclare", "ধরি nn = 1, nn = 2;"}, {"redeclare", "ধরি arr;"},
 	{"stray", "থামো;"}, {"stray", "চালিয়ে_যাও;"}, {"stray", "ফেরত 5;"},
 }
 var c06StmtPositions = []struct{ name, text string }{
